@@ -255,6 +255,9 @@ struct HStream {
 };
 
 // ---------------------------------------------------------------- the harness's own transparent stream eraser
+// (its operation objects are tracked as well: kind 'N' / 'K', id 0)
+struct World;
+static World* g_world = nullptr;
 struct NextRxBase {
   virtual void v(int) noexcept = 0;
   virtual void e(std::exception_ptr) noexcept = 0;
@@ -310,27 +313,32 @@ struct AnyS {
 
   template <typename R>
   struct NOp final : NextRxBase {
+    Tracked tr;
     StreamHolder* h; R r; std::unique_ptr<InnerOp> inner;
-    NOp(StreamHolder* h, R&& r) : h(h), r(std::move(r)) {}
+    NOp(StreamHolder* h, R&& r) : tr(g_world, 0, 'N'), h(h), r(std::move(r)) {}
     NOp(NOp&&) = delete;
+    ~NOp() { if (!tr.alive()) (void)inner.release(); }   // second destruction: do not free twice, ~Tracked reports it
     void start() noexcept {
       static_assert(std::is_same_v<remove_cvref_t<stop_token_type_t<R&>>, inplace_stop_token>, "AnyS forwards inplace_stop_token only");
       tok = get_stop_token(r);
+      tr.w->set_running(&tr, true);
       inner = h->connect_next(NextRx{this});
       inner->start();
     }
-    void v(int x) noexcept override { unifex::set_value(std::move(r), (int)x); }
-    void e(std::exception_ptr ex) noexcept override { unifex::set_error(std::move(r), std::move(ex)); }
-    void d() noexcept override { unifex::set_done(std::move(r)); }
+    void v(int x) noexcept override { tr.w->set_running(&tr, false); unifex::set_value(std::move(r), (int)x); }
+    void e(std::exception_ptr ex) noexcept override { tr.w->set_running(&tr, false); unifex::set_error(std::move(r), std::move(ex)); }
+    void d() noexcept override { tr.w->set_running(&tr, false); unifex::set_done(std::move(r)); }
   };
   template <typename R>
   struct COp final : CleanRxBase {
+    Tracked tr;
     StreamHolder* h; R r; std::unique_ptr<InnerOp> inner;
-    COp(StreamHolder* h, R&& r) : h(h), r(std::move(r)) {}
+    COp(StreamHolder* h, R&& r) : tr(g_world, 0, 'K'), h(h), r(std::move(r)) {}
     COp(COp&&) = delete;
-    void start() noexcept { inner = h->connect_cleanup(CleanRx{this}); inner->start(); }
-    void e(std::exception_ptr ex) noexcept override { unifex::set_error(std::move(r), std::move(ex)); }
-    void d() noexcept override { unifex::set_done(std::move(r)); }
+    ~COp() { if (!tr.alive()) (void)inner.release(); }
+    void start() noexcept { tr.w->set_running(&tr, true); inner = h->connect_cleanup(CleanRx{this}); inner->start(); }
+    void e(std::exception_ptr ex) noexcept override { tr.w->set_running(&tr, false); unifex::set_error(std::move(r), std::move(ex)); }
+    void d() noexcept override { tr.w->set_running(&tr, false); unifex::set_done(std::move(r)); }
   };
   struct NSnd {
     template <template <typename...> class Variant, template <typename...> class Tuple>
@@ -647,6 +655,7 @@ static std::string run_case(const std::string& line) {
   if (parts.size() < 5) return "bad-case";
   std::string id = trim(parts[0]);
   World w;
+  g_world = &w;
   Ctx c; c.w = &w;
   {
     auto cs = split(trim(parts[1]), ':');
